@@ -487,38 +487,76 @@ def _epilogue_rules(res, drv, fsolve, f, ends):
                     return
 
 
+class _CallerDict(dict):
+    _caller_owned = True
+
+
 def analyse_check_end(proj, res):
+    """DRV-STOP for _check_end, decided over the ordering abstraction (minieval.py): the stop test touches
+    the elapsed time and the iteration count only through comparisons with the limits, so its result is a
+    function of (which criteria are present) x (time below / at / above its limit) x (count below / at /
+    above its limit), and the function is evaluated on its syntax tree for every such combination.  It must
+    be the disjunction of  _time >= tottime  and  _nit >= maxit  over the criteria present."""
+    from .minieval import MiniEval, Ord, SelfRef
     cls = proj.cls("integration.timemodel")
     f = proj.resolve(cls, "_check_end")
     if f is None:
         raise AnalysisError("_check_end not found")
-    comps = [n for n in ast.walk(f.node) if isinstance(n, ast.Compare) and len(n.ops) == 1
-             and not isinstance(n.ops[0], (ast.Eq, ast.NotEq, ast.In, ast.NotIn, ast.Is, ast.IsNot))]
-    seen = {}
-    for c in comps:
-        l, r = c.left, c.comparators[0]
-        attr = l.attr if isinstance(l, ast.Attribute) and isinstance(l.value, ast.Name) and l.value.id == f.params[0] else None
-        rattr = r.attr if isinstance(r, ast.Attribute) and isinstance(r.value, ast.Name) and r.value.id == f.params[0] else None
-        if attr in ("_time", "_nit") and isinstance(c.ops[0], ast.GtE):
-            seen[attr] = True
-        elif rattr in ("_time", "_nit") and isinstance(c.ops[0], ast.LtE):
-            seen[rattr] = True
-        elif attr in ("_time", "_nit") or rattr in ("_time", "_nit"):
-            res.bad("DRV-STOP", "criterion on %s uses %s instead of >= : the run does not stop at the first step that reaches the limit" % (attr or rattr, type(c.ops[0]).__name__), c.lineno, "cmp-" + (attr or rattr))
-            seen[attr or rattr] = False
-    for a, crit in (("_time", "tottime"), ("_nit", "maxit")):
-        if a not in seen:
-            res.bad("DRV-STOP", "criterion %s is not evaluated against self.%s" % (crit, a), f.node.lineno, "crit-" + a)
-    rets = [n for n in ast.walk(f.node) if isinstance(n, ast.Return) and n.value is not None]
-    okany = bool(rets) and all(isinstance(r.value, ast.Call) and isinstance(r.value.func, ast.Name) and r.value.func.id == "any" for r in rets)
-    if okany and all(seen.get(a) for a in ("_time", "_nit")):
-        res.ok("DRV-STOP", "_check_end is `any` over the criteria  _time >= tottime, _nit >= maxit")
-    elif not okany:
-        res.bad("DRV-STOP", "_check_end does not return any(...) of its criteria: the run does not stop at the first satisfied criterion", f.node.lineno, "any")
-    # keys dispatched
-    keys = {n.comparators[0].value for n in ast.walk(f.node) if isinstance(n, ast.Compare) and isinstance(n.ops[0], ast.Eq) and isinstance(n.comparators[0], ast.Constant)}
-    if not {"tottime", "maxit"} <= keys:
-        res.bad("DRV-STOP", "_check_end does not recognise the keys %s" % sorted({"tottime", "maxit"} - keys), f.node.lineno, "keys")
+    if len(f.params) != 2:
+        raise AnalysisError("_check_end does not take (self, stop)")
+    crit = (("tottime", "_time", "time"), ("maxit", "_nit", "count"))
+    names = {0: "<", 1: "==", 2: ">"}
+    combos = [(), ("tottime",), ("maxit",), ("tottime", "maxit"), ("maxit", "tottime")]
+    ncase, wrong, omega = 0, [], False
+    for keys in combos:
+        for rt in range(3):
+            for rn in range(3):
+                stop = _CallerDict()
+                for k in keys:
+                    fam = dict((c[0], c[2]) for c in crit)[k]
+                    stop[k] = Ord(fam, 1)
+                # _itstart: the iteration offset of a restarted run, a generic (arbitrarily large) count
+                me = SelfRef(cls, {"_time": Ord("time", rt), "_nit": Ord("count", rn), "_itstart": Ord("count", (1, 0))})
+                ev = MiniEval(proj)
+                del Ord.omega_dependent[:]
+                try:
+                    got = ev.call(f, [me, stop])
+                    got = ev.truth(got, f.node, f)
+                except AnalysisError as e:
+                    res.und("DRV-STOP", "_check_end could not be evaluated over the ordering abstraction (stop keys %s): %s" % (list(keys), e), f.node.lineno)
+                    return
+                want = ("tottime" in keys and rt >= 1) or ("maxit" in keys and rn >= 1)
+                ncase += 1
+                if got != want:
+                    wrong.append((keys, rt, rn, got, want, bool(Ord.omega_dependent)))
+                elif Ord.omega_dependent:
+                    omega = True
+    if not wrong and omega:
+        res.und("DRV-STOP", "_check_end compares a quantity that includes the restart offset _itstart: outside the ordering abstraction", f.node.lineno)
+        return
+    if not wrong:
+        res.ok("DRV-STOP", "_check_end evaluated over the ordering abstraction: on all %d combinations of (criteria present, _time <,==,> tottime, _nit <,==,> maxit) it returns exactly  (_time >= tottime) or (_nit >= maxit)  over the criteria present" % ncase, f.node.lineno)
+        return
+    # one report per criterion and kind of disagreement
+    seen = set()
+    for keys, rt, rn, got, want, om in wrong:
+        if len(keys) == 1:
+            k = keys[0]
+            a = "_time" if k == "tottime" else "_nit"
+            r = rt if k == "tottime" else rn
+            key = "crit-%s-%s" % (a, names[r])
+            text = "with stop = {%s}: self.%s %s %s  ->  _check_end returns %s, expected %s" % (k, a, names[r], k, got, want)
+        else:
+            key = "combine-%s" % ("+".join(sorted(keys)) or "empty")
+            text = "with stop keys %s: _time %s tottime, _nit %s maxit  ->  _check_end returns %s, expected %s (the run stops at the first satisfied criterion)" % (list(keys), names[rt], names[rn], got, want)
+            if any(w[0] and len(w[0]) == 1 for w in wrong):
+                continue          # explained by a single-criterion report
+        if key in seen:
+            continue
+        seen.add(key)
+        if om:
+            text += " on a restarted run whose iteration offset _itstart is large enough (the criterion counts the offset)"
+        res.bad("DRV-STOP", text + (": the run does not stop at the first step that reaches the limit" if want else ": the run stops before the limit is reached"), f.node.lineno, key)
 
 
 def analyse_entry_points(proj, res):
